@@ -265,6 +265,49 @@ def r185_fresh_constants(ctx, res):
                           construct="Vector.%s shared instance" % name)
 
 
+def r186_scale_covariant(ctx, res):
+    """length is homogeneous of degree 1, normalized/unit and angle of degree 0, over the whole claimed range of
+    magnitudes: none of them may decide anything by comparing a quantity of positive degree in the vector(s) with an
+    absolute threshold (the tolerance or a non-zero literal) -- such a branch treats short vectors differently from
+    long ones.  An exact comparison with zero (the zero vector has no direction) is not a threshold."""
+    from ..astutil import expand_locals
+    from .c15 import _degrees
+
+    n = 0
+    done = set()
+    for name in ("length", "normalized", "unit", "angle"):
+        m = ctx.repo.cls("Vector").lookup(name)
+        if m is None:
+            raise AnalysisError("Vector.%s not found" % name)
+        vecs = tuple(m.params[:2])
+        bad = []
+        k = 0
+        if m.qual in done:
+            n += 1
+            continue
+        done.add(m.qual)
+        for c in walk_local(m.node):
+            if not (isinstance(c, ast.Compare) and len(c.ops) == 1):
+                continue
+            k += 1
+            e = expand_locals(m.node, c, m.params)
+            l, r = _degrees(e.left, vecs), _degrees(e.comparators[0], vecs)
+            for a, b in ((l, r), (r, l)):
+                if isinstance(a, tuple) and any(x > 0 for x in a) and (b == "eps" or (isinstance(b, tuple) and not any(b))):
+                    bad.append((c, a))
+        n += 1
+        ok = not bad
+        res.ob("R18.6", m.where(), "Vector.%s has no absolute threshold" % name, ok,
+               "%d comparison(s), none of a positive-degree quantity with an absolute threshold" % k if ok else
+               "`%s` (degree %s) compared with an absolute threshold" % (txt(bad[0][0])[:50], bad[0][1]))
+        for c, a in bad[:1]:
+            res.violation("R18.6", m, c, "Vector.%s branches on `%s`: a quantity of degree %s in the vector compared with an absolute "
+                          "threshold, so vectors at the small end of the claimed range of magnitudes are treated as degenerate "
+                          "(|normalized(v)| = 1 / the direction is lost for them)" % (name, txt(c)[:60], a),
+                          construct="Vector.%s absolute threshold `%s`" % (name, txt(c)[:40]))
+    ctx.require(res, "R18.6", n, 4, "scale-covariant operations")
+
+
 def run(ctx, res):
     res.explanation = (
         "The real code of the vector algebra (vector.py, point.py, util.py) is interpreted over symbolic coordinates "
@@ -287,6 +330,7 @@ def run(ctx, res):
             raise
     r183(ctx, res)
     r185_fresh_constants(ctx, res)
+    r186_scale_covariant(ctx, res)
     k = check_acos(ctx, res, ctx.repo.fn("Vector.angle"), "R18.4")
     ctx.require(res, "R18.4", k, 1, "acos sites")
     res.undecided_ob("|normalized(v)| = 1 and same direction over magnitudes 1e-6..1e6; angle in [0, pi] numerically; Decimal")
